@@ -70,7 +70,7 @@ func decoys(z *zm.Zone) []string {
 	}
 	names := z.FileNames()
 	for _, f := range names {
-		addDir(path.Dir(f))
+		addDir(path.Dir(strings.TrimLeft(path.Clean(f), "/")))
 		for _, it := range z.FileItems(f) {
 			if it.Kind == zm.KInclude {
 				addDir(path.Dir(strings.TrimLeft(path.Clean(it.File), "/")))
@@ -103,7 +103,15 @@ func decoys(z *zm.Zone) []string {
 func osEligible(z *zm.Zone) bool {
 	for _, f := range z.FileNames() {
 		for _, it := range z.FileItems(f) {
-			if it.Kind == zm.KInclude && strings.HasPrefix(it.File, "/") {
+			if it.Kind != zm.KInclude {
+				continue
+			}
+			if strings.HasPrefix(it.File, "/") {
+				return false
+			}
+			// belt and braces: the path must stay inside the model's root
+			dir := path.Dir(strings.TrimLeft(path.Clean(f), "/"))
+			if j := path.Join(dir, it.File); j == ".." || strings.HasPrefix(j, "../") {
 				return false
 			}
 		}
@@ -327,8 +335,14 @@ func modelClasses(z *zm.Zone) []string {
 		walk(f)
 	}
 	seen[fmt.Sprintf("inc:depth=%d", includeDepth(z, z.FileName, 0))] = true
-	if strings.Contains(z.FileName, "/") {
+	if strings.Contains(strings.TrimLeft(path.Clean(z.FileName), "/"), "/") {
 		seen["inc:top-file-in-directory"] = true
+	}
+	if c := path.Clean(z.FileName); c != z.FileName || strings.HasPrefix(c, "/") {
+		seen["inc:top-file-name-not-clean"] = true
+		if strings.HasPrefix(z.FileName, "/") {
+			seen["inc:top-file-name-absolute"] = true
+		}
 	}
 	if d, h := generateHops(z, z.FileName, 0); d == zm.MaxIncludeDepth && h > 0 {
 		seen["inc:depth=7-with-generate-hop"] = true
